@@ -76,6 +76,9 @@ def gen(rng: Any, prop: str, tier: str) -> dict[str, Any]:
                     if rng.random() < 0.6:
                         g.exec("root", {"t": "create_table", "ref": [d, s, "T1"], "cols": [["A", "INT"], ["B", "VARCHAR(20)"]], "comment": f"made by root in {d}.{s}"})
                         g.exec("root", {"t": "insert", "ref": [d, s, "T1"], "rows": [[g.fresh(), "root"]]})
+                    if rng.random() < 0.3:
+                        # existing data under a quoted, lower-case name (stored verbatim): connecting must not touch it either
+                        g.exec("root", {"t": "create_table", "ref": [d, s, '"raw_t"'], "cols": [["A", "INT"], ["B", "VARCHAR(12)"]], "comment": "quoted name"})
     sids = ["s0", "s1", "s2"]
     n_conn = rng.randint(2, 6)
     restarted = False
@@ -103,7 +106,7 @@ def gen(rng: Any, prop: str, tier: str) -> dict[str, Any]:
         elif r < 0.55 and g.m.sessions.get("root") and "DB1" not in g.m.dbs and not g.m.detached:
             g.exec("root", {"t": "create_db", "name": "DB1"})
         elif r < 0.65:
-            tables = g.all_tables()
+            tables = [t for t in g.all_tables() if t[2] == t[2].upper()]  # unquoted references only reach upper-case names (identifier case is C02's subject, not claimed)
             if tables:
                 g.exec(sid, {"t": "select", "ref": list(rng.choice(tables))})
     return {"profile": NAME, "config": {"create_db": create_db, "create_schema": create_schema, "storage": storage, "fs_opts": fs_opts}, "strategy": "serial", "ops": g.ops}
